@@ -356,7 +356,12 @@ fn end_to_end(metric: Metric, d: usize) -> Result<u64, Violation> {
             let w = arroy::Writer::<D>::new(arroy_db::<D>(s.db), 0, d);
             for id in 0..9u32 {
                 let v = pattern_vec(d, id as usize);
-                w.add_item(&mut wtxn, id, &v).map_err(|e| ("D/e2e".to_string(), e.to_string()))?;
+                // ascending ids in an otherwise empty database: every second item goes through append_item
+                if id % 2 == 1 {
+                    w.append_item(&mut wtxn, id, &v).map_err(|e| ("D/e2e".to_string(), e.to_string()))?;
+                } else {
+                    w.add_item(&mut wtxn, id, &v).map_err(|e| ("D/e2e".to_string(), e.to_string()))?;
+                }
                 model.insert(id, crate::common::bits_of(&v));
             }
             let mut rng = <rand::rngs::StdRng as rand::SeedableRng>::seed_from_u64(3);
